@@ -133,5 +133,18 @@ CHECKS["C04"] = {
     "technique": "bounded exhaustive enumeration of the overload x operand-kind x presence x value matrix against the lifted-semantics oracle with evaluation counters",
 }
 
+CHECKS["C08"] = {
+    "engine": "E3-exhaustive-enumerator",
+    "category": "exploration",
+    "text": "Complete enumeration of the input spaces the statement quantifies over, through the real code, built twice (software path with -mno-f16c and F16C path with -mf16c) and compared bit for bit: "
+            "float->half on all 2^32 float bit patterns (constructor and assignment); half->float/double, sqrt, classification, unary minus, fabs, hash on all 2^16 halves; + - * /, the six comparisons, copysign and "
+            "hash-of-equal-values on 8*10^7 boundary pairs (quick) / ALL 2^32 ordered pairs (thorough); fma on an alphabet cube plus tie-breaking addends derived from the exact product. The oracle is an exact integer "
+            "binary16 reference (refs/C08_half_ref.hpp) that is itself cross-checked on every run against double arithmetic, TwoSum/round-to-odd and the F16C hardware. A 16-bit type makes exhaustive enumeration the right level.",
+    "design_ref": "DESIGN.md section 3, C08",
+    "note": "Trusted: the integer reference (cross-checked) and IEEE double arithmetic of the host. The 2^48 fma triples are covered on the two stated families only. double->half and int<->half are enumerated and "
+            "reported as information only (the statement does not claim them). NaN results compare as 'is NaN'.",
+    "technique": "exhaustive input enumeration (all 2^32 floats, all 2^16 halves, all 2^32 half pairs) against an exact integer reference, software vs F16C path digest comparison",
+}
+
 NOT_YET = "check not built yet in this round; design in DESIGN.md section 3"
 NOT_APPLICABLE = {}
